@@ -21,6 +21,10 @@ type C15Step struct {
 	Serving  bool   `json:"serving"` // testmode: the server still answers a fresh reattach + ping
 	ClosedCh bool   `json:"closedCh"`
 	Returned bool   `json:"returned"`
+	// a failed reattach is retried on the same client: Start again, then Protocol()
+	RetryOK       bool   `json:"retryOk,omitempty"`
+	RetryErr      string `json:"retryErr,omitempty"`
+	RetryProtocol string `json:"retryProtocol,omitempty"`
 	// proc mode, after kill / sigkill: for every client of the plugin, whether it reported Exited() within 8 s
 	AllExited []bool `json:"allExited,omitempty"`
 }
